@@ -216,6 +216,13 @@ func (c *Ctx) coverCheck(p *Parser, fn *ssa.Function, method string, assume func
 				c.fail(key, fn.Pos(), "%s (%s) does not write %s on every success path", method, fnName(fn), k)
 			}
 		case covered(must, k):
+			// scalar state must return to the value a new parser has: zero
+			if what == "re-initialised" && !strings.Contains(k, "[*]") && c.isIntKey(p.T, k) {
+				if bad := c.nonZeroStore(fn, prefix, k); bad != "" {
+					c.fail(key, fn.Pos(), "%s stores a non-zero value to the search-state counter %s (%s): a reset parser does not start from the state of a new one", method, k, bad)
+					continue
+				}
+			}
 			c.ok(key, fn.Pos(), "%s on every success path of %s", what, fnName(fn))
 		case isElem && must[base]:
 			// elements: header must be emptied (or elements cleared, handled above)
@@ -392,6 +399,10 @@ func (c *Ctx) coverCheckShrink(p *Parser, fn *ssa.Function, assume func(*ssa.If)
 		switch {
 		case covered(must, k):
 			c.ok(key, fn.Pos(), "rewritten on the δ>0 path of %s", fnName(fn))
+		case strings.Contains(k, "[*]") && c.elementsRewritten(fn, prefix, k):
+			// re-based bucket by bucket through sub-slices; the arithmetic of the re-basing
+			// routine itself (every entry pos−δ or cleared) is R-SHRINK-WRAP's subject
+			c.ok(key, fn.Pos(), "elements rewritten in place on the δ>0 path of %s (see R-SHRINK-WRAP)", fnName(fn))
 		case must[outer]:
 			c.ok(key, fn.Pos(), "%s re-assigned on the δ>0 path of %s", outer, fnName(fn))
 		default:
@@ -997,4 +1008,31 @@ func (c *Ctx) fromBytes(v ssa.Value, depth int) bool {
 		return n > 0
 	}
 	return false
+}
+
+
+// isIntKey: the dotted field path k inside struct type T names an integer field.
+func (c *Ctx) isIntKey(T types.Type, k string) bool {
+	t := T
+	for _, part := range strings.Split(k, ".") {
+		st := derefStruct(t)
+		if st == nil {
+			if s2, ok := t.Underlying().(*types.Struct); ok {
+				st = s2
+			} else {
+				return false
+			}
+		}
+		found := false
+		for i := 0; i < st.NumFields(); i++ {
+			if st.Field(i).Name() == part {
+				t = st.Field(i).Type()
+				found = true
+			}
+		}
+		if !found {
+			return false
+		}
+	}
+	return isIntType(t)
 }
